@@ -10,8 +10,8 @@ stdin : {"cases": [case, ...], "timeout": seconds per case}
                      and builds a second tree from it; the queries then go to the FIRST tree),
           "scale_exp": s   (all coordinates, query points and radii are multiplied by 2^s; observations are divided again),
           "call": "pos|kw|default", "strategy_spelling": e.g. "Balanced", "numrep": "py|np64|np32" (k, max_leaf_size, r),
-          "qform": "array|list|tuple|intarray", "repeat": bool (every query issued again, interleaved, after the caller
-          appended to the first answers), "bad_call_first": bool (failing calls are made and caught before the queries)}
+          "qform": "array|list|tuple|intarray", "repeat": bool (every query issued again, interleaved; the second answers are reported
+          as knn_again / rad_again and judged by the oracle, not compared with the first), "bad_call_first": bool (failing calls are made and caught before the queries)}
   Coordinates of the points are integers. Query points are given DOUBLED (Q = 2q, so q has half-integer
   coordinates) and the radius of a radius query is r = sqrt(m)/2, i.e. m = (2r)^2.
 stdout: '@@JSON ' + {"obs": [obs, ...]}
@@ -175,7 +175,15 @@ def run_case(case, timeout):
                 nodes.append(["N", int(nd.id), int(nd.split_axis), dbl(nd.split_value), int(nd.left), int(nd.right), lo, hi])
         out = {"status": "ok", "pivots": [dbl(p) for p in rec], "nodes": nodes, "knn": [], "rad": []}
     except Exception as ex:  # noqa
-        return {"status": "error", "msg": "canonicalise: %s: %s" % (type(ex).__name__, ex)}
+        # the internal layout (boxes, axes, split values, ids) is mechanism, not property: if it cannot be read the
+        # tree is still queried; only the model correspondence loses its observation
+        out = {"status": "ok", "pivots": [], "nodes": None, "knn": [], "rad": [],
+               "structure_error": "%s: %s" % (type(ex).__name__, ex)}
+    try:
+        out["leaves"] = [[int(i) for i in nd.points] for nd in tree.nodes if isinstance(nd, KDTree.Leaf)]
+    except Exception as ex:  # noqa
+        out["leaves"] = None
+        out["leaves_error"] = "%s: %s" % (type(ex).__name__, ex)
     out["container"] = cont
     out["input_modified_by_build"] = bool(is_arr and not np.array_equal(P, before))
     # the caller goes on using its array: refill it and build another tree from it, then query the FIRST tree
@@ -279,23 +287,20 @@ def run_case(case, timeout):
         out["knn"].append(do_knn(Q, k, j))
     for j, (Q, m) in enumerate(case.get("rad", [])):
         out["rad"].append(do_rad(Q, m, j))
-    # the same calls again, interleaved, after the first answers were tampered with by the caller: same answers
-    rep_bad = None
+    # the same calls again, interleaved, after the caller tampered with the first answers: the new answers are judged
+    # by the oracle like the first ones (ties may legitimately be broken differently from one call to the next)
+    out["knn_again"], out["rad_again"] = [], []
     if case.get("repeat"):
-        first_k = [list(a) for a in out["knn"]]
-        first_r = [list(a) for a in out["rad"]]
-        for j in range(max(len(first_k), len(first_r))):
-            if j < len(first_r):
-                a = do_rad(case["rad"][j][0], case["rad"][j][1], j)
-                if a != first_r[j] and rep_bad is None:
-                    rep_bad = "query_radius #%d answered %s, then %s" % (j, first_r[j], a)
-                a.append(-1)
-            if j < len(first_k):
-                a = do_knn(case["knn"][j][0], case["knn"][j][1], j)
-                if a != first_k[j] and rep_bad is None:
-                    rep_bad = "query #%d answered %s, then %s" % (j, first_k[j], a)
-                a.append(-1)
-    out["repeat_mismatch"] = rep_bad
+        for a in out["knn"] + out["rad"]:
+            a_copy = list(a)
+            a.append(-1)
+            del a[:]
+            a.extend(a_copy)
+        for j in range(max(len(out["knn"]), len(out["rad"]))):
+            if j < len(out["rad"]):
+                out["rad_again"].append(do_rad(case["rad"][j][0], case["rad"][j][1], j))
+            if j < len(out["knn"]):
+                out["knn_again"].append(do_knn(case["knn"][j][0], case["knn"][j][1], j))
     out["query_point_modified_by"] = sorted(set(qmod))
     out["input_modified_by_query"] = bool(is_arr and not np.array_equal(P, before))
     try:
